@@ -244,6 +244,48 @@ def _native_accept_replay(kw):
           'args': [], 'kwargs': kwargs, 'floatx': 'float32'}
 
 
+_PWL_FN_SEARCH = """
+import numpy as np
+kw = args[0]
+cp = mod('conditional_pwl_calibration')
+nk, U = kw['nk'], kw['units']
+size = nk - kw['clamp_min'] - kw['clamp_max'] - kw['is_cyclic'] + (kw['missing'] == 'derived')
+rng = np.random.RandomState(21)
+kmin, kmax, omin, omax, miss = -1.0, 3.0, -2.0, 1.5, -50.0
+found = {}
+def note(kind, amount, detail):
+  if kind not in found or amount > found[kind]['amount']:
+    found[kind] = {'amount': float(amount), 'detail': detail}
+for trial in range(40):
+  spread = [0.5, 2.0, 6.0, 15.0][trial % 4]
+  kin = None if kw['in_form'] == 'none' else rng.uniform(-spread, spread, size=(1, U, nk - 2)).astype('float32')
+  kout = rng.uniform(-spread, spread, size=(1, U, size)).astype('float32')
+  args_ = dict(keypoint_input_parameters=None if kin is None else tf.constant(kin), keypoint_output_parameters=tf.constant(kout),
+               units=U, keypoint_input_min=kmin, keypoint_input_max=kmax, keypoint_output_min=omin, keypoint_output_max=omax,
+               clamp_min=kw['clamp_min'], clamp_max=kw['clamp_max'], monotonicity=kw['monotonicity'], is_cyclic=kw['is_cyclic'])
+  if kw['missing']:
+    args_['missing_input_value'] = miss
+    if kw['missing'] == 'fixed':
+      args_['missing_output_value'] = 0.25
+  f = lambda xs: cp.pwl_calibration_fn(inputs=tf.constant(np.array(xs, 'float32').reshape(-1, 1)), **args_).numpy()
+  xs = np.sort(rng.uniform(kmin - 1, kmax + 1, size=30))
+  ys = f(xs)
+  det = {'keypoint_input_parameters': None if kin is None else kin.tolist(), 'keypoint_output_parameters': kout.tolist()}
+  if ys.min() < omin - 1e-4: note('below keypoint_output_min', omin - ys.min(), det)
+  if ys.max() > omax + 1e-4: note('above keypoint_output_max', ys.max() - omax, det)
+  if kw['monotonicity'] == 'increasing' and np.max(-np.diff(ys, axis=0)) > 1e-4: note('not non-decreasing', np.max(-np.diff(ys, axis=0)), det)
+  ends = f([kmin, kmax])
+  if kw['clamp_min'] and np.max(np.abs(ends[0] - omin)) > 1e-4: note('clamp_min not reached at keypoint_input_min', np.max(np.abs(ends[0] - omin)), det)
+  if kw['clamp_max'] and np.max(np.abs(ends[1] - omax)) > 1e-4: note('clamp_max not reached at keypoint_input_max', np.max(np.abs(ends[1] - omax)), det)
+  if kw['is_cyclic'] and np.max(np.abs(ends[0] - ends[1])) > 1e-4: note('cyclic ends differ', np.max(np.abs(ends[0] - ends[1])), det)
+  if kw['missing'] == 'fixed' and np.max(np.abs(f([miss]) - 0.25)) > 1e-5: note('missing input not mapped to missing_output_value', np.max(np.abs(f([miss]) - 0.25)), det)
+  if kw['missing'] == 'derived':
+    want = omin + (omax - omin) / (1 + np.exp(-kout[0, :, -1].astype('float64')))
+    if np.max(np.abs(f([miss])[0] - want)) > 1e-4: note('missing input not mapped to the derived missing output', np.max(np.abs(f([miss])[0] - want)), det)
+result = found
+"""
+
+
 class PwlFnCase(Case):
   contract_key = None
   xcheck = False
@@ -251,11 +293,27 @@ class PwlFnCase(Case):
   def replay_desc(self, cfg, model, g):
     if 'documented-call-form-accepted' in g.get('name', g.get('obligation', '')):
       return _native_accept_replay(cfg['kw'])
-    return None
+    # softmax / sigmoid are uninterpreted in the contract library: bounded native search instead of a model replay
+    return {'kind': 'script', 'code': _PWL_FN_SEARCH, 'floatx': 'float32', 'args': [cfg['kw']], 'kwargs': {}}
 
   def replay_eval(self, cfg, model, g, desc, nat):
-    return {'desc': desc, 'native': {k: v for k, v in nat.items() if k != 'trace'},
-            'failing': ['raised ' + nat['error'][:300]] if 'error' in nat else []}
+    if desc.get('kind') != 'script':
+      return {'desc': desc, 'native': {k: v for k, v in nat.items() if k != 'trace'},
+              'failing': ['raised ' + nat['error'][:300]] if 'error' in nat else []}
+    if 'error' in nat:
+      return {'native': {k: v for k, v in nat.items() if k != 'trace'}, 'failing': ['raised ' + nat['error'][:200]]}
+    name = g.get('name', '')
+    rel = {'in-output-range': ('below keypoint_output_min', 'above keypoint_output_max'), 'non-decreasing': ('not non-decreasing',),
+           'clamp-min': ('clamp_min not reached at keypoint_input_min',), 'clamp-max': ('clamp_max not reached at keypoint_input_max',),
+           'have:weight-at-upper': ('clamp_max not reached at keypoint_input_max', 'cyclic ends differ'),
+           'have:weight-at-lower': ('clamp_min not reached at keypoint_input_min',),
+           'cyclic': ('cyclic ends differ',), 'missing': ('missing input not mapped to missing_output_value',
+                                                         'missing input not mapped to the derived missing output')}
+    failing = []
+    for key, kinds in rel.items():
+      if name.startswith(key):
+        failing += ['%s by %g' % (k, nat['ok'][k]['amount']) for k in kinds if k in (nat['ok'] or {})]
+    return {'native': nat, 'failing': failing, 'note': 'bounded native search: 40 random parameter draws'}
 
   def body(self, cfg, c):
     kw = cfg['kw']
